@@ -24,6 +24,14 @@ PROPS = {
         not_decided='name-syntax half of C18: name, ncname, qname, nmtoken, pi_target, enc_name, take_except are nom combinator compositions, outside both verifiers',
         explanation='classification half of C18: every is_* predicate of nom/src/xmlchar.rs equals the production range table for every char; Verus (SMT, all chars) and Kani (loop-free, kani::any::<char>(), complete) as two independent back ends',
     ),
+    'C09': dict(
+        kani=['c09'],
+        level='proof',
+        trusted_base=TRUSTED_KANI,
+        assumptions=[A1, A6, A7, A8, 'CBMC reports NaN-producing float operations (inf - inf inside round) as failed checks of class "NaN on ..."; NaN is specified XPath behaviour, so that class is classified as expected and only assertion/panic/integer classes count'],
+        not_decided='everything in C09 except floor/ceiling/round: string functions (substring, string-length, translate, normalize-space, ...), number<->string lexical forms, arithmetic operators, comparisons and boolean()/number() coercions (Kani did not finish harnesses over a symbolic Boolean|Number operand in 15 min; symbolic strings never finish)',
+        explanation='rounding clause of C09: the real xpath::eval::func::{floor,ceiling,round} called on Value::Number(x) for every f64 x (loop-free, complete): NaN, infinities and zeros are preserved bit for bit, the result is integral, floor/ceiling bracket x, round is the closest integer with ties towards positive infinity and -0 for [-0.5, 0)',
+    ),
     'C16': dict(
         verus_units=['c16_chardata'],
         level='proof',
@@ -73,7 +81,10 @@ NOT_APPLICABLE = {
     'C06': 'every panic/abort site named by the property sits in evaluator code that needs a live node or the nom expression grammar; exponential backtracking is a running-time claim; the one reachable piece (totality of substring) is decided under C09',
     'C07': 'node-set ordering/dedup is sort_by_cached_key/HashSet over XmlNode::order() of live nodes inside the evaluator; not separable from the object graph',
     'C08': 'spelling equivalence and precedence are properties of the nom expression grammar (relations between strings), outside both verifiers',
+    'C10': 'not decided: the only piece within reach (model::Context::{add_ns,remove_ns,get_ns_uri,expanded_name}) needs symbolic strings, which Kani handles only as a small bounded run (55 s / 4.5 GB for 2 prefixes, measured) and which Verus cannot read (HashMap<String,String> iteration); the document side (in-scope namespaces, xmlns="", attributes, name tests) is live-graph code. The bounded stand-in described in DESIGN §4 was not built, so nothing is claimed',
     'C12': 'the tree invariant quantifies over histories on the aliasing object graph (children vectors vs parent_id via id_map); a ghost-tree proof is a protocol-level invariant beyond this task and Kani cannot build the objects',
+    'C14': 'not decided: pre-order of the keys and query equivalence are whole-tree / evaluator facts outside both verifiers; the DocumentOrder layer (get/push/remove/insert_after/insert_before over Vec<Weak<RefCell<ContextInfo>>>) is within reach of Verus only through opaque-handle shims (DESIGN §4 C14) and that unit was not built, so nothing is claimed',
+    'C15': 'not decided: "the serialization is accepted by the parser" is a statement about the nom grammar; the one-call fragment (validity of the joined string after insert/delete) needs the three nom checkers as specifications, which this technique can only assume (A3), and the unit of DESIGN §4 C15 was not built, so nothing is claimed. Seen with the replay binary, not by a verifier: text "]]" + insert_data(2, ">") succeeds and stores "]]>"',
     'C17': 'the CLIs compose file I/O, both nom grammars, the evaluator, DOM mutation and the printer; nothing in them is a function a contract can isolate',
     'C19': 'determinism and context-stack balance after failed queries need query() (nom grammar + evaluator + live nodes); the push/pop primitives are trivially correct in isolation and say nothing about pairing at the call sites',
 }
@@ -84,6 +95,11 @@ MANIFEST_TEXT = {
         level_note='Trusted: Verus+Z3, Kani+CBMC, the extractor (verbatim ratio reported), the hand transcription of the W3C tables (spec/xml_chars.json), three assumed std contracts (char::is_ascii_*) on the Verus side. Not decided: the name productions (nom).',
         technique='contract-based deductive verification (Verus postconditions on extracted real functions; complete loop-free Kani harnesses)',
         design_ref='DESIGN.md §4 C18'),
+    'C09': dict(
+        level_text='Proof (Kani/CBMC, loop-free, every f64: complete, no unwinding) that the real floor, ceiling and round functions follow XPath 1.0 4.4 including NaN, infinities, signed zeros and the tie rule. Rounding clause of C09 only.',
+        level_note='Trusted: Kani+CBMC+SAT, the inert-node harness trick (A7), declarative reference written from the XPath text. Not decided: all string functions, conversions, operators, comparisons.',
+        technique='contract-based verification with Kani: the contract of each function asserted in a loop-free harness over kani::any::<f64>() on the real crate (no stubs)',
+        design_ref='DESIGN.md §4 C09, §8'),
     'C16': dict(
         level_text='Proof (Verus, unbounded: all contents, offsets, counts) that length/substring_data/insert_data/delete_data/append_data/replace_data/set_data on text, comment and CDATA nodes compute the DOM Level 1 result over the character sequence (offset past the end = IndexSizeErr, count clipped to the end), with no overflow or std panic, through three layers of real functions each checked against its callees\' contracts. split_text and XmlExpandedText not covered.',
         level_note='Trusted: Verus+Z3, extractor, std iterator shims, the nom validity checkers as uninterpreted predicates (A3), RefCell modelled as plain ownership (A4).',
